@@ -24,6 +24,10 @@ LEVEL = 'exploration'
 RULE = ('seeded valid templates (token trees, nesting <= 3, every tag kind forced in turn) printed as '
         '<dtml-..>, <!--#..--> and %(..)x with random whitespace/quoting/end-tag styles; each with one '
         'classified mutation at up to 2 (quick) / 3 (thorough) sites per mutation kind (18 kinds); '
+        'every classified case (valid and mutated) a second time in the two HTML syntaxes with entity look-alike '
+        'text (&dtml- / &dtml. followed by a character no entity can contain) in front of some tags and a ";" '
+        'after the last one - plain literal text that must change neither verdict nor location; the name-and-expr '
+        'mutation gives the second giver as a value, an empty value, a blank value or no value; '
         'truncation of valid printings at EVERY offset; one character delete/duplicate/swap at EVERY '
         'position; fragment soup over tag openers, closers, quotes, names and blanks in both classes; '
         '(incl. non-ASCII letters/blanks and a lone surrogate); a grid of small valid templates using every '
@@ -265,16 +269,25 @@ def settle_guard(ctx):
 
 
 # ---------------------------------------------------------------- workloads
-def classified(ctx, E, toks, kind, mutated=None):
+def classified(ctx, E, toks, kind, mutated=None, _plain=True):
     verdict, why = U.judge(toks)
-    ctx.table('model verdicts', '%s|%s' % (kind, verdict))
-    for syn in U.SYNTAXES:
+    if _plain:
+        ctx.table('model verdicts', '%s|%s' % (kind, verdict))
+        # the same case with entity look-alike text in front of some tags and a ';' after the last one
+        dtoks, dmut = U.decorate(toks, ctx.rng, mutated)
+        if U.judge(dtoks)[0] == verdict:
+            classified(ctx, E, dtoks, kind, dmut, _plain=False)
+        else:
+            ctx.count('generator:look-alike decoration changed the model verdict (skipped)')
+    for syn in (U.SYNTAXES if _plain else [x for x in U.SYNTAXES if x != 'epfs']):
         pr = U.print_tokens(toks, syn, ctx.rng)
         if pr is None:
             ctx.count('generator:discarded (text would read as a tag / not spellable)')
             continue
         src, tags = pr
-        case = {'group': 'mut:%s:%s' % (kind, syn) if kind != 'valid' else 'valid:' + syn,
+        if not _plain:
+            ctx.count('classified cases with entity look-alike text')
+        case = {'group': ('mut:%s:%s' % (kind, syn) if kind != 'valid' else 'valid:' + syn) + ('' if _plain else '+lookalike'),
                 'cls': U.CLASS_OF[syn], 'src': src, 'tags': [[o, t] for o, t, _i in tags],
                 'expect': {'valid': 'accept', 'invalid': 'reject'}.get(verdict), 'why': why}
         if (mutated is not None and kind in U.ATTR_KINDS and verdict == 'invalid' and
